@@ -21,6 +21,7 @@ A non-proved obligation triggers the bounded model query (same engine, |ALL| <= 
 import ast
 import json
 import os
+import re
 import subprocess
 import time
 
@@ -107,6 +108,8 @@ def provenance(lst, depth=0):
     if depth > 6:
         return None
     ident = (lambda j: j), (lambda i: i)
+    if getattr(lst, 'prov_fn', None) is not None:
+        return lst.prov_fn()
     conv = getattr(lst, 'conv_of', None)
     if conv is not None:
         return provenance(conv, depth + 1)
@@ -622,10 +625,21 @@ def setup_protos(run, nall):
     """the study as stored: PROTOS (creation order, what ListTrials returns); ALL = its element-wise conversion"""
     arr = z3.Const('PROTOS', z3.ArraySort(z3.IntSort(), pm.msg_sort(TRIALP())))
     run.PROTOS = SymList(run.ALL.n, arr, TRIALP())
+    conv_term(arr[0])
+    # lookup by id (GetTrial): idx_of(id) = position of the stored trial with that id.  Stored trials are in creation order, which is
+    # ascending id order with distinct ids (ids are allocated max_trial_id()+1: C12.history.id_allocation.*, C01.ListTrials.effect)
+    run.idx_of = z3.Function('idx_of_trial_id', z3.IntSort(), z3.IntSort())
     if nall is None:
-        i = z3.Int('i!pr')
+        i, i2 = z3.Int('i!pr'), z3.Int('i2!pr')
         run.axiom(z3.ForAll([i], z3.Implies(z3.And(i >= 0, i < run.ALL.n), run.ALL.arr[i] == conv_term(arr[i]))))
+        run.axiom(z3.ForAll([i], z3.Implies(z3.And(i >= 0, i < run.ALL.n), run.idx_of(conv_id(arr[i])) == i)))
+        run.axiom(z3.ForAll([i, i2], z3.Implies(z3.And(i >= 0, i < i2, i2 < run.ALL.n), conv_id(arr[i]) < conv_id(arr[i2]))))
     else:
+        for i in range(nall):
+            run.assume(run.idx_of(conv_id(arr[i])) == i)
+            for i2 in range(i):
+                run.assume(conv_id(arr[i2]) < conv_id(arr[i]))
+    if nall is not None:
         for i in range(nall):
             run.assume(run.ALL.arr[i] == conv_term(arr[i]))
             st = pm.accessor(TRIALP(), 'state')(arr[i])
@@ -659,9 +673,39 @@ def _from_protos(it, args, kw):
     return r
 
 
+def trial_id_of_name(term):
+    """the trial id inside a resource name built as f'{study}/trials/{id}' (canonical names, DESIGN 4.3)"""
+    if z3.is_expr(term) and z3.is_app(term) and term.decl().name().startswith('fstr!'):
+        for (tmpl, sorts), fn in M._FSTR.items():
+            if fn.eq(term.decl()) and len(tmpl) == 3 and tmpl[1] == '/trials/' and term.num_args() == 2 and term.arg(1).sort() == z3.IntSort():
+                return term.arg(1)
+    return None
+
+
+def stored_exists(run, tid):
+    k = run.idx_of(tid)
+    return z3.And(k >= 0, k < run.PROTOS.n, conv_id(run.PROTOS.arr[k]) == tid)
+
+
+def _get_trial(it, args, kw):
+    """VizierServicer.GetTrial by the DataStore contract (Appendix A): the stored proto, or NotFoundError (a KeyError)."""
+    run = it.run
+    req = args[-1]
+    tid = trial_id_of_name(E.to_z3(req.get('name')))
+    if tid is None:
+        raise Unsupported('GetTrial with a name that is not f"{study}/trials/{id}"')
+    run.event('GetTrial', tid)
+    if it.truth(stored_exists(run, tid)):
+        return Msg.from_term(TRIALP(), run.PROTOS.arr[run.idx_of(tid)])
+    cls = ModuleInfo.get('vizier._src.service.custom_errors').classes['NotFoundError']
+    raise PyRaise(ExcObj(cls, {'args': ('No such trial',)}))
+
+
 def _service_getattr(it, v, a):
     if isinstance(v, ServiceRef) and a == 'ListTrials':
         return E.Bound(v, Builtin('vizier_service.ListTrials', _list_trials))
+    if isinstance(v, ServiceRef) and a == 'GetTrial':
+        return E.Bound(v, Builtin('vizier_service.GetTrial', _get_trial))
     return M.MISSING
 
 
@@ -783,9 +827,47 @@ def service_entry(cfg, nall=None):
     return entry
 
 
+def service_loop_invariant(it, fr, ctx):
+    """Loops of ServicePolicySupporter.GetTrials by ROLE:
+       fetch  : `for id in sorted(set(trial_ids)): try: out.append(GetTrial(id)) except KeyError: continue`
+                out = [stored(L[t]) | t < i, a trial with id L[t] is stored]  (append provenance src/pos)
+       other  : e.g. `for t in filtered: t.measurements = []` -- touches nothing of (id, status, identity): no facts needed."""
+    run = it.run
+    L = ctx.iter
+    if not isinstance(L, SymList) or getattr(L, 'sorted_set', None) is None or not hasattr(run, 'PROTOS'):
+        return []
+    names = [k for k, v in fr.env.items() if (isinstance(v, list) and not v) or (isinstance(v, TM.ProvList) and getattr(v.elem, 'fq', None) == 'vizier.Trial')]
+    if len(names) != 1:
+        return []
+    on = names[0]
+    if ctx.phase == 'init' and not isinstance(fr.env[on], TM.ProvList):
+        fr.env[on] = TM.empty_provlist(TRIALP())
+    out = fr.env[on]
+    if ctx.phase == 'head':
+        from pyvc import symdict as SD
+        SD.set_clock(run, ctx.i)
+        out.src = run.fresh('fetch_src', z3.ArraySort(z3.IntSort(), z3.IntSort()))
+        out.pos = run.fresh('fetch_pos', z3.ArraySort(z3.IntSort(), z3.IntSort()))
+    S, lpos = L.sorted_set
+    P = run.PROTOS
+
+    def prov_fn(out=out, L=L, lpos=lpos):
+        return (lambda j: run.idx_of(L.arr[out.src[j]])), (lambda i_: out.pos[lpos[conv_id(P.arr[i_])]])
+    out.prov_fn = prov_fn
+    i = ctx.i
+    j, k, t = z3.Int('j!fl'), z3.Int('k!fl'), z3.Int('t!fl')
+    ex = lambda x: stored_exists(run, x)
+    return [('fetch.bounds', z3.And(out.n >= 0, out.n <= i)),
+            ('fetch.sound', z3.ForAll([j], z3.Implies(z3.And(j >= 0, j < out.n), z3.And(out.src[j] >= 0, out.src[j] < i, ex(L.arr[out.src[j]]),
+                                                                                        out.arr[j] == P.arr[run.idx_of(L.arr[out.src[j]])])))),
+            ('fetch.ordered', z3.ForAll([j, k], z3.Implies(z3.And(j >= 0, j < k, k < out.n), out.src[j] < out.src[k]))),
+            ('fetch.complete', z3.ForAll([t], z3.Implies(z3.And(t >= 0, t < i, ex(L.arr[t])), z3.And(out.pos[t] >= 0, out.pos[t] < out.n, out.src[out.pos[t]] == t))))]
+
+
 def install_service_loop():
-    # `for filtered_pytrial in filtered_pytrials: filtered_pytrial.measurements = []` -- touches nothing of (id, status, identity)
-    E.LOOPS[(SPS, 'ServicePolicySupporter.GetTrials', 1)] = E.LoopSpec(lambda it, fr, ctx: [])
+    fn = ModuleInfo.get(SPS).classes['ServicePolicySupporter'].methods['GetTrials']
+    for k in range(1, len([n for n in ast.walk(fn) if isinstance(n, (ast.For, ast.While))]) + 1):
+        E.LOOPS[(SPS, 'ServicePolicySupporter.GetTrials', k)] = E.LoopSpec(service_loop_invariant)
 
 
 # =========================================================================================== history level
@@ -1078,7 +1160,7 @@ def lean_check(chk, tier):
 
 # =========================================================================================== main
 def run_group(chk, fname, tier, proofs, bounded_kind=None, bounded_entries=None, hint_marker='.loop', extra_payload=None):
-    c = ckit.Contract(chk, fname, timeout_ms=10000 if tier == 'quick' else 60000, rename=lambda n: n if n.startswith('C12.') else 'C12.' + n)
+    c = ckit.Contract(chk, fname, timeout_ms=10000 if tier == 'quick' else 60000, rename=lambda n: re.sub(r'\.loop\d+\.(fetch)\.', r'.loop.\1.', n if n.startswith('C12.') else 'C12.' + n))
     for entry, post, expect in proofs:
         c.prove(entry, post, expect_paths=expect, deadline_s=60)
     opened = [n for n in c.open_names()]
@@ -1149,7 +1231,10 @@ def main(tier):
     chk.function(SPS, 'ServicePolicySupporter.GetTrials')
     install_service_loop()
     name = 'C12.ServicePolicySupporter.GetTrials'
-    chk.trust('VizierServicer.ListTrials returns all trials of the study in creation order (C01.ListTrials.effect)')
+    chk.trust('VizierServicer.ListTrials returns all trials of the study in creation order (C01.ListTrials.effect); GetTrial returns the stored trial or raises '
+              'NotFoundError, a KeyError (DataStore contract, Appendix A); a name built as f"{study}/trials/{id}" names trial `id` of the study (DESIGN 4.3)')
+    chk.assume('ServicePolicySupporter.GetTrials: the stored trials of a study are in creation order = ascending id order with distinct ids '
+               '(ids are allocated max_trial_id()+1, which exceeds every existing id: C12.history.id_allocation.*)')
     run_group(chk, 'ServicePolicySupporter.GetTrials', tier, [(service_entry(cfg), gt_post(name), 1) for cfg in ARG_CONFIGS], 'get_trials',
               [((lambda nall, cfg=cfg: service_entry(cfg, nall)), gt_post(name)) for cfg in (ARG_CONFIGS[-1], ARG_CONFIGS[0])],
               extra_payload=lambda run, model: gt_payload(run, model, 'service'))
